@@ -13,6 +13,8 @@ Model: `AnyDB/Model/Import.lean`.
                                stored header fails with DifferentVersion / DifferentFormat (the model has no
                                other path to `discarded`: lock and I/O errors are propagated by
                                `forced_import_with`'s `_ => res` arm, which the extractor pins);
+* `C14_corrupt_refused`     — matching header but a region length that is no multiple of the element size (raw formats):
+                               refused with CorruptedRegion through both entry points, nothing removed;
 * `C14_forced_result_empty` — after a forced import with a mismatch an empty vector of the requested
                                version and format is stored;
 * `C14_full` / `C14_counterexample` / `C14_partial` — the full statement ("same user version and format ⇒
@@ -52,6 +54,7 @@ theorem C14_forced_discards_iff (s : Stored) (v : Nat) (f : Format) :
   · by_cases h2 : s.format ≠ f
     · simp [h1, h2]
     · simp [h1, h2]
+      split <;> simp
 
 theorem C14_forced_result_empty (s : Stored) (v : Nat) (f : Format)
     (h : (importVec (some s) .forced v f).1 = .discarded) :
@@ -62,6 +65,15 @@ theorem C14_forced_result_empty (s : Stored) (v : Nat) (f : Format)
   · by_cases h2 : s.format ≠ f
     · simp [h1, h2]
     · simp [h1, h2] at h
+      split at h <;> simp at h
+
+/-- matching version and format but an impossible region length (raw formats): refused through BOTH entry points and
+    nothing is removed — the forced entry point resets on a version/format mismatch only -/
+theorem C14_corrupt_refused (s : Stored) (e : Entry) (v : Nat) (f : Format)
+    (hv : s.version = effectiveVersion e f v) (hf : s.format = f) (hc : s.corrupt = true) (hr : isRaw f = true) :
+    importVec (some s) e v f = (.errCorrupt, some s) := by
+  unfold importVec verify
+  simp [hv, hf, hc, hr]
 
 theorem C14_nothing_stored (e : Entry) (v : Nat) (f : Format) : (importVec none e v f).1 = .fresh := rfl
 
